@@ -167,6 +167,15 @@ class PathResolver:
                 idx = l - 1
                 if 0 <= idx < len(t["args"]):
                     return self.operand(frame.parent, t["args"][idx], j, -1, depth + 1)
+        if frame.kind == 'closurecall' and l >= 2:
+            j = self._frame_entry(frame, i)
+            if j is not None:
+                tup = ir.peel(self.operand(frame.parent, frame.call_term["args"][1], j, -1, depth + 1))
+                if tup[0] == 'agg' and tup[1] == 'tuple':
+                    for (n_, x) in tup[3]:
+                        if n_ == l - 2:
+                            return x
+                return ('field', tup, l - 2)
         return ('param', l, name)
 
     def call_result(self, m, j, depth):
@@ -176,7 +185,7 @@ class PathResolver:
         t = m.term
         # inlined? the next node on the path is the callee's entry
         if j + 1 < len(self.nodes) and self.nodes[j + 1].frame.parent is m.frame and self.nodes[j + 1].frame.site == m.bb \
-                and self.nodes[j + 1].frame.kind in ('call', 'pollfn'):
+                and self.nodes[j + 1].frame.kind in ('call', 'pollfn', 'closurecall'):
             child = self.nodes[j + 1].frame
             # find the child's return on the path
             for q in range(j + 1, len(self.nodes)):
